@@ -148,6 +148,25 @@ def run(ck):
         mapcalls = [cs for cs in T.calls(b, name=maps) if T.path_has(b, cs.args[0], ".level_triggered")]
         ck.verdict(bool(mapcalls), "3", "T8-sibling-agreement", b, "level-map:%s" % (maps if isinstance(maps, str) else "|".join(maps)), "the level-emulation map is maintained (%s)" % (maps if isinstance(maps, str) else "/".join(maps)), "%s does not maintain the level-emulation map" % q, site=b.where())
 
+    # removal paths (shared with C06.2): a source removed from inside its callback is unregistered
+    from props import C06, C15
+
+    common.import_results(ck, C06, "2", None, "5")
+    common.import_results(ck, C15, "4", "IoLoopInner", "4")
+    # every (re)registration really reaches the poller: interest, mode and key last requested are the ones armed
+    for q, callee in (("<Generic as EventSource>::register", "register"), ("<Generic as EventSource>::reregister", "reregister")):
+        g = ck.opt_body(q)
+        if g is None:
+            ck.anchor_missing("3", "T2-all-exits", q)
+            continue
+        pc = [cs for cs in T.calls(g, name=callee) if cs.f["path"].startswith("sys::Poll::")]
+        okret = [i for i, j, st in g.statements() if st["s"] == "assign" and st["pl"]["l"] == 0 and st["rv"]["r"] == "agg" and st["rv"].get("variant") == "Ok" and not g.is_cleanup(i)]
+        bad = T.t2_all_exits(g, [0], [c.bb for c in pc], exits=okret or None) if pc else [0]
+        ck.verdict(bad is None, "3", "T2-all-exits", g, "always-reaches:Poll::%s" % callee, "every successful %s hands the current interest, mode and token to the poller" % callee, "Generic::%s can return Ok without calling the poller (a cached-state shortcut): a change of interest/mode/token since the last registration is silently not applied" % callee, site=g.where(), path=path_descr(g, bad) if bad else None)
+        for c in pc:
+            ok = T.path_has(g, c.args[2], ".interest") and T.path_has(g, c.args[3], ".mode") and T.resolves_to_call(g, c.args[4], [x.bb for x in T.calls(g, name="token")])
+            ck.verdict(ok, "3", "T6-provenance", g, "poller-gets:self.interest,self.mode,fresh-token", "the poller call receives self.interest, self.mode and the token just obtained from the factory", "Generic::%s does not pass its current interest/mode/token to the poller" % callee, site=g.where(c.bb))
+
     # ---- clause 5: wrapper delegation -----------------------------------------------------------------------
     n = common.wrapper_forwarding(ck, "5")
     ck.floor("5", "wrapper (impl, method) forwarding instances", n, 12 if ck.has("executor") else 9)
